@@ -16,7 +16,7 @@ ANCHORS = ['phylib.io.array:_spikes_per_cluster', 'phylib.io.array:_spikes_in_cl
            'phylib.io.model:TemplateModel.get_template_spikes',
            'phylib.io.model:TemplateModel.get_template_counts']
 RULE = ('EVERY cluster-assignment vector of length <= L over the id alphabet {0,2,3,7} (thorough: '
-        '{0,2,3,7,9}) x dtype {int32,int64,uint16,uint32} x {no spike ids, shifted spike ids}; for each: '
+        '{0,2,3,7,9}) x dtype {int32,int64,uint16,uint32} x {no spike ids, shifted spike ids}, plus every vector of length <= 4 over the sparse large ids {5,70000,123456}; for each: '
         '_spikes_per_cluster, _spikes_in_clusters for subsets of {0,2,3,5,7} in shuffled order (all 32 '
         'for length <= 4, 8 rotating otherwise), _unique, _index_of against an unsorted lookup, '
         '_flatten_per_cluster, grouped_mean (1-D and 2-D values). Judged twice: by the set-theoretic M2 '
@@ -58,6 +58,14 @@ def run_shard(desc, ctx):
                         continue
                     for shifted in (False, True):
                         run_case({'vec': list(vec), 'dtype': dt, 'shifted': shifted, 'rot': idx}, ctx)
+    # short vectors over sparse, large ids (lookup tables much larger than the data)
+    for n in range(1, 5):
+        for vec in itertools.product([5, 70000, 123456], repeat=n):
+            idx += 1
+            if idx % ns != sh:
+                continue
+            for dt in ('int32', 'int64', 'uint32'):
+                run_case({'vec': list(vec), 'dtype': dt, 'shifted': bool(idx % 2), 'rot': idx}, ctx)
     rng = np.random.default_rng([desc['seed'], sh, 7])
     for _ in range((200 if tier == 'quick' else 5000) // ns + 1):
         n = int(10 ** rng.uniform(3, 5 if tier == 'thorough' else 4.3))
@@ -112,7 +120,8 @@ def run_case(case, ctx):
             if isinstance(spc, dict) else spc), feats)
     # _spikes_in_clusters: sorted union of groups (groups by index, so recompute without ids)
     groups = {c: np.nonzero(sc == c)[0] for c in ids_present}
-    subsets = [list(s) for r_ in range(0, 6) for s in itertools.combinations(POOL, r_)]
+    pool5 = POOL if max(ids_present) < 100 else [5, 70000, 9, 123456, 2]
+    subsets = [list(s) for r_ in range(0, 6) for s in itertools.combinations(pool5, r_)]
     if long_ or n > 4:
         subsets = [subsets[(case['rot'] * 5 + j * 7) % len(subsets)] for j in range(8)]
     if long_:
